@@ -133,25 +133,13 @@ def specJudge (XS : XmlSpec.SpecExt) (t : Ty) (doc : Bytes) (status payload : St
       | .ok v => .ok v
       | .error m => .error ("misfit:" ++ isErrMisfit m ++ (if misfitIsXsi m then ":xsi" else ""))
   let value (d : Bytes) : Except String Bytes := valueOfNode (XmlSpec.parse d)
-  -- classification only: the values with CR and LF identified
-  let valueCrLf (d : Bytes) : Except String Bytes :=
-    match XmlSpec.parse d with
-    | .ok node =>
-      match XmlSpec.specValue { XS with strNorm := fun s => XmlSpec.normEol s } XmlSpec.judgeDef smithyDepth dr t node with
-      | .ok v => .ok v
-      | .error _ => .error "misfit"
-    | .error _ => .error "ill"
+  -- classification only: the value of the document read WITHOUT line-end normalisation (what a reader that skips
+  -- XML 1.0 §2.11 sees)
+  let valueNoEol (d : Bytes) : Except String Bytes := valueOfNode (XmlSpec.parseWith false d)
   let toks := match XmlSpec.lex doc with | .ok t => t | .error _ => []
   -- classification only: value under the reading that exhibits the CDATA / comment defects
   let valueInterrupted : Except String Bytes :=
     valueOfNode (XmlSpec.buildAux (XmlSpec.meaning (interruptedReading toks false)) [] none)
-  let valueInterruptedCrLf : Except String Bytes :=
-    match XmlSpec.buildAux (XmlSpec.meaning (interruptedReading toks false)) [] none with
-    | .ok node =>
-      match XmlSpec.specValue { XS with strNorm := fun s => XmlSpec.normEol s } XmlSpec.judgeDef smithyDepth dr t node with
-      | .ok v => .ok v
-      | .error _ => .error "misfit"
-    | .error _ => .error "ill"
   let interruptClass := if docHasCdata toks then "xml-cdata-dropped" else "xml-comment-splits-text"
   let docV := value doc
   if status = "err" then
@@ -189,10 +177,9 @@ def specJudge (XS : XmlSpec.SpecExt) (t : Ty) (doc : Bytes) (status payload : St
           else
             -- classify by the shape of the input
             let cls :=
-              if b.contains 13 && valueCrLf doc == valueCrLf b then "xml-cr-not-escaped"
-              else if doc.contains 13 && valueCrLf doc == valueCrLf b then "xml-eol-not-normalised"
+              if b.contains 13 && value (escapeCr b) == .ok v then "xml-cr-not-escaped"
+              else if doc.contains 13 && valueNoEol doc == .ok v' then "xml-eol-not-normalised"
               else if valueInterrupted == .ok v' then interruptClass
-              else if (b.contains 13 || doc.contains 13) && valueInterruptedCrLf == valueCrLf b then interruptClass
               else "xml-meaning-changed"
             some (cls, "meaning of the accepted document ≠ meaning of the re-encoded document")
   else none
